@@ -67,7 +67,7 @@ var cores = []string{
 	"spin-modcopy", "block-relay-implicit", "block-relay-explicit", "block-relay-func", "spin-ptr-cycle", "spin-ptr-cycle-set", "spin-ptr-cycle-forin", "spin-ptr-cycle-forin-chan", "spin-ptr-ring-forin",
 	"spin-quiet-elseif", "spin-quiet-else", "spin-quiet-switch", "spin-quiet-try", "spin-quiet-nested",
 	"block-fanin-send", "block-fanout-recv",
-	"block-recv-if", "block-recv-arg", "block-recv-switch",
+	"block-recv-if", "block-recv-arg", "block-recv-switch", "block-recv-ok-target", "block-recv-value-target", "block-send-target",
 	"foreign-close", "foreign-close-blocked", "foreign-close-in-go", "foreign-feed", "foreign-drain", "foreign-drain-range", "foreign-drain-ok", "foreign-relay",
 }
 
@@ -263,6 +263,14 @@ func renderCore(core string, u string) string {
 		return "c" + u + " = make(chan int64)\nx" + u + " = [1, <-c" + u + "]"
 	case "block-send-expr-arg":
 		return "c" + u + " = make(chan int64)\nhid(c" + u + " <- 1)"
+	// the script blocks while it evaluates the TARGET of a receive statement (the index of `m[<-never]`), the received
+	// item already in hand; the targets are fresh names, or members
+	case "block-recv-ok-target":
+		return "c" + u + " = make(chan int64, 1)\nc" + u + " <- 1\nnv" + u + " = make(chan int64)\nfl" + u + " = {}\nrv" + u + ", fl" + u + "[<-nv" + u + "] = <-c" + u
+	case "block-recv-value-target":
+		return "c" + u + " = make(chan int64, 1)\nc" + u + " <- 1\nnv" + u + " = make(chan int64)\nfl" + u + " = {}\nfl" + u + "[<-nv" + u + "], ok" + u + " = <-c" + u
+	case "block-send-target":
+		return "nv" + u + " = make(chan int64)\ncs" + u + " = [make(chan int64, 1)]\ncs" + u + "[<-nv" + u + "] <- 1"
 	// the cancelled run meets goroutines an earlier call left behind (foreignPrelude)
 	case "foreign-close":
 		return "close(fch)\nfor { tick() }"
